@@ -55,8 +55,10 @@ var (
 	c04TypJ   = reflect.TypeOf((*c04J)(nil)).Elem()
 	c04TypIJ  = reflect.TypeOf((*c04IJ)(nil)).Elem()
 	// (the presence masks of the static configurations cover the first seven; IJ is registered in histories)
-	c04Types = []reflect.Type{c04TypT1, c04TypPT1, c04TypT2, c04TypNS, c04TypCh, c04TypI, c04TypJ, c04TypIJ}
-	c04Names = []string{"T1", "*T1", "T2", "NS", "chan<- int", "I", "J", "IJ"}
+	// the interface without methods: every registered type implements it
+	c04TypAny = reflect.TypeOf((*interface{})(nil)).Elem()
+	c04Types  = []reflect.Type{c04TypT1, c04TypPT1, c04TypT2, c04TypNS, c04TypCh, c04TypI, c04TypJ, c04TypIJ, c04TypAny}
+	c04Names  = []string{"T1", "*T1", "T2", "NS", "chan<- int", "I", "J", "IJ", "interface{}"}
 )
 
 // chans maps channel identity to a tag (channels carry no data we could tag).
@@ -126,6 +128,8 @@ func (r *c04Reg) mkValue(ti int, tag string, variant int) reflect.Value {
 		return reflect.ValueOf(c04JImpl{tag})
 	case 7: // under key IJ
 		return reflect.ValueOf(c04Both{tag})
+	case 8: // under key interface{}
+		return reflect.ValueOf(c04NS(tag))
 	}
 	panic("ti")
 }
@@ -145,6 +149,8 @@ func c04Register(inj inject.Injector, ti int, v reflect.Value, api string) {
 		inj.MapTo(v.Interface(), (*c04J)(nil))
 	case ti == 7:
 		inj.MapTo(v.Interface(), (*c04IJ)(nil))
+	case ti == 8:
+		inj.MapTo(v.Interface(), (*interface{})(nil))
 	default:
 		inj.Map(v.Interface())
 	}
@@ -664,6 +670,9 @@ func c04HistoryOps() []c04HOp {
 	// a value under an interface key that implements I and J (MapTo): it answers for both from then on, also
 	// after a lookup of I or J in that scope had found nothing
 	ops = append(ops, c04HOp{Kind: "reg", Scope: 0, Type: 7}, c04HOp{Kind: "reg", Scope: 1, Type: 7})
+	// the method-less interface: as a key of its own in the outer scope, and asked for (any registration of the
+	// nearest scope that has one answers before an outer scope is consulted)
+	ops = append(ops, c04HOp{Kind: "reg", Scope: 1, Type: 8}, c04HOp{Kind: "value", Type: 8}, c04HOp{Kind: "invoke", Type: 8})
 	for _, ti := range []int{5, 1, 2} {
 		ops = append(ops, c04HOp{Kind: "value", Type: ti})
 	}
